@@ -344,4 +344,484 @@ example : finde [97, 97, 97] [97, 97] = [1] := by decide
 example : finde [97, 98, 97, 98] [97, 98] = [1, 3] := by decide
 example : spalteText [120, 97, 97, 98] [97, 98] = [[120, 97], []] := by decide
 
+/-! ## second part: the remaining functions -/
+
+/-! ### lists -/
+
+theorem einfuegenBereich_length (l l' r : List Int) (i : Nat) (h : einfuegenBereich l i r = some l') :
+    l'.length = l.length + r.length := by
+  unfold einfuegenBereich at h
+  split at h
+  · injection h with h; subst h; simp [List.length_take, List.length_drop]; omega
+  · simp at h
+
+/-- inserting a one-element range is inserting the element -/
+theorem einfuegenBereich_single (l : List Int) (i : Nat) (e : Int) : einfuegenBereich l i [e] = einfuegen l i e := rfl
+
+theorem einfuegenBereich_nil (l l' : List Int) (i : Nat) (h : einfuegenBereich l i [] = some l') : l' = l := by
+  unfold einfuegenBereich at h
+  split at h
+  · injection h with h; subst h; simp
+  · simp at h
+
+theorem voranstellenListe_single (l : List Int) (e : Int) : voranstellenListe l [e] = voranstellen l e := rfl
+
+theorem voranstellenListe_length (l o : List Int) : (voranstellenListe l o).length = l.length + o.length := by
+  simp [voranstellenListe]; omega
+
+theorem leere_leer (l : List Int) : (leere l).isEmpty = true := rfl
+
+theorem absteigend_length (a b : Int) (h : b ≤ a) : ((absteigend a b).length : Int) = a - b + 1 := by
+  simp [absteigend]; omega
+
+/-- exactly the numbers from b to a -/
+theorem absteigend_mem (a b x : Int) : x ∈ absteigend a b ↔ b ≤ x ∧ x ≤ a := by
+  simp only [absteigend, List.mem_map, List.mem_range]
+  constructor
+  · rintro ⟨k, hk, rfl⟩; omega
+  · intro ⟨h1, h2⟩
+    exact ⟨(a - x).toNat, by omega, by omega⟩
+
+theorem aufsteigend_mem (a b x : Int) : x ∈ aufsteigend a b ↔ a ≤ x ∧ x ≤ b := by
+  simp only [aufsteigend, List.mem_map, List.mem_range]
+  constructor
+  · rintro ⟨k, hk, rfl⟩; omega
+  · intro ⟨h1, h2⟩
+    exact ⟨(x - a).toNat, by omega, by omega⟩
+
+theorem absteigend_sorted (a b : Int) : (absteigend a b).Pairwise (· ≥ ·) := by
+  simp only [absteigend]
+  rw [List.pairwise_map]
+  have : ∀ n : Nat, (List.range n).Pairwise fun (x y : Nat) => a - (x : Int) ≥ a - (y : Int) := by
+    intro n
+    induction n with
+    | zero => simp
+    | succ n ih =>
+      rw [List.range_succ, List.pairwise_append]
+      refine ⟨ih, by simp, ?_⟩
+      intro x hx y hy
+      have hx' := List.mem_range.mp hx
+      have : y = n := by simpa using hy
+      omega
+  exact this _
+
+theorem verketteTexte_append (a b : List (List Nat)) : verketteTexte (a ++ b) = verketteTexte a ++ verketteTexte b := by
+  simp [verketteTexte]
+
+theorem elementweiseVerketten_length (a b r : List (List Nat)) (h : elementweiseVerketten a b = some r) : r.length = a.length := by
+  unfold elementweiseVerketten at h
+  split at h
+  · rename_i hl; injection h with h; subst h; simp [List.length_zipWith, hl]
+  · simp at h
+
+theorem elementweise_length (f : Int → Int → Int) (a b r : List Int) (h : elementweise f a b = some r) : r.length = a.length := by
+  unfold elementweise at h
+  split at h
+  · rename_i hl; injection h with h; subst h; simp [List.length_zipWith, hl]
+  · simp at h
+
+theorem summeK_anfuegen (l : List Rat) (x : Rat) : summeK (l ++ [x]) = summeK l + x := by
+  simp [summeK, List.foldl_append]
+
+theorem tausche_zurueck (a b : Int) : tausche (tausche a b).1 (tausche a b).2 = (a, b) := rfl
+
+example : absteigend 3 (-1) = [3, 2, 1, 0, -1] := by decide
+example : einfuegenBereich [1, 2, 3] 3 [7, 8] = some [1, 2, 7, 8, 3] := by decide
+
+/-! ### texts -/
+
+theorem entferneVorne_length (t : Text) (n : Int) : (entferneVorne t n).length = t.length - n.toNat := by
+  simp [entferneVorne]
+
+/-- a count below 0 counts as 0 -/
+theorem entferneVorne_neg (t : Text) (n : Int) (h : n ≤ 0) : entferneVorne t n = t := by
+  have : n.toNat = 0 := by omega
+  simp [entferneVorne, this]
+
+theorem entferneVorne_alles (t : Text) (n : Int) (h : (t.length : Int) ≤ n) : entferneVorne t n = [] := by
+  have : t.length ≤ n.toNat := by omega
+  simp [entferneVorne, this]
+
+theorem entferneHinten_length (t : Text) (n : Int) : (entferneHinten t n).length = t.length - n.toNat := by
+  simp [entferneHinten, List.length_take]
+
+theorem entferneHinten_prefix (t : Text) (n : Int) : entferneHinten t n <+: t := List.take_prefix _ _
+
+theorem entferneHinten_neg (t : Text) (n : Int) (h : n ≤ 0) : entferneHinten t n = t := by
+  have : n.toNat = 0 := by omega
+  simp [entferneHinten, this]
+
+/-- what is removed in front and what stays make up the text -/
+theorem entferneVorne_rest (t : Text) (n : Int) : t.take n.toNat ++ entferneVorne t n = t := List.take_append_drop _ _
+
+theorem fuelleText_length (t : Text) (c : Nat) : (fuelleText t c).length = t.length := by simp [fuelleText]
+
+theorem fuelleText_all (t : Text) (c x : Nat) (h : x ∈ fuelleText t c) : x = c := by
+  simp [fuelleText] at h; exact h.2.symm
+
+/-- the letters as texts, put together again, are the text -/
+theorem verkette_buchstabenTexte (t : Text) : verketteTexte (buchstabenTexte t) = t := by
+  induction t with
+  | nil => rfl
+  | cons x r ih =>
+    simp only [verketteTexte, buchstabenTexte, List.map_cons, List.flatten_cons] at ih ⊢
+    rw [ih]; rfl
+
+theorem buchstabenTexte_length (t : Text) : (buchstabenTexte t).length = t.length := by simp [buchstabenTexte]
+
+theorem indexVonBuchstabe_none (t : Text) (c : Nat) (h : c ∉ t) : indexVonBuchstabe t c = -1 := by
+  unfold indexVonBuchstabe
+  have : t.findIdx? (· == c) = none := by
+    apply List.findIdx?_eq_none_iff.mpr
+    intro x hx
+    simp
+    intro hxe
+    exact h (hxe ▸ hx)
+  simp [this]
+
+theorem indexVonBuchstabe_found (t : Text) (c : Nat) (i : Int) (h : indexVonBuchstabe t c = i) (hi : i ≠ -1) : c ∈ t := by
+  unfold indexVonBuchstabe at h
+  cases hf : t.findIdx? (· == c) with
+  | none => simp [hf] at h; omega
+  | some k =>
+    obtain ⟨hk, hp, _⟩ := List.findIdx?_eq_some_iff_getElem.mp hf
+    have : t[k] = c := by simpa using hp
+    exact this ▸ List.getElem_mem hk
+
+theorem beginntMitBuchstabe_leer (c : Nat) : beginntMitBuchstabe [] c = false := rfl
+theorem endetMitBuchstabe_anfuegen (t : Text) (c : Nat) : endetMitBuchstabe (textAnfuegen t [c]) c = true := by
+  simp [endetMitBuchstabe, textAnfuegen]
+theorem beginntMitBuchstabe_voranstellen (t : Text) (c : Nat) : beginntMitBuchstabe (textVoranstellen t [c]) c = true := by
+  simp [beginntMitBuchstabe, textVoranstellen]
+
+theorem levenshtein_nil_left (b : Text) : levenshtein [] b = b.length := by
+  unfold levenshtein; rfl
+
+theorem levenshtein_nil_right (a : Text) : levenshtein a [] = a.length := by
+  cases a with
+  | nil => unfold levenshtein; rfl
+  | cons x r => unfold levenshtein; rfl
+
+/-- equal texts have distance 0 -/
+theorem levenshtein_self (a : Text) : levenshtein a a = 0 := by
+  induction a with
+  | nil => unfold levenshtein; rfl
+  | cons x r ih =>
+    unfold levenshtein
+    simp [ih]
+
+/-- every part of a split at a set of letters is non-empty -/
+theorem spalteMengeAux_nonempty (m : List Nat) (t cur : Text) : ∀ p ∈ spalteMengeAux m t cur, p ≠ [] := by
+  induction t generalizing cur with
+  | nil =>
+    intro p hp
+    unfold spalteMengeAux at hp
+    split at hp
+    · simp at hp
+    · rename_i hc
+      have : p = cur.reverse := by simpa using hp
+      subst this
+      intro h
+      apply hc
+      have : cur = [] := by simpa using h
+      simp [this]
+  | cons x r ih =>
+    intro p hp
+    unfold spalteMengeAux at hp
+    split at hp
+    · split at hp
+      · exact ih [] p hp
+      · rename_i hc
+        rcases List.mem_cons.mp hp with e | e
+        · subst e
+          intro h
+          apply hc
+          have : cur = [] := by simpa using h
+          simp [this]
+        · exact ih [] p e
+    · exact ih (x :: cur) p hp
+
+/-- … and together the parts are the text without the letters of the set -/
+theorem spalteMengeAux_flatten (m : List Nat) (t cur : Text) :
+    (spalteMengeAux m t cur).flatten = cur.reverse ++ t.filter (fun x => !m.contains x) := by
+  induction t generalizing cur with
+  | nil =>
+    unfold spalteMengeAux
+    split
+    · rename_i hc
+      have : cur = [] := by simpa using hc
+      simp [this]
+    · simp
+  | cons x r ih =>
+    unfold spalteMengeAux
+    split
+    · rename_i hx
+      have hx' : x ∈ m := by simpa using hx
+      split
+      · rename_i hc
+        have : cur = [] := by simpa using hc
+        simp [ih, this, hx']
+      · simp [ih, hx']
+    · rename_i hx
+      have hx' : x ∉ m := by simpa using hx
+      rw [ih]
+      simp [hx']
+
+theorem spalteMenge_flatten (t : Text) (m : List Nat) : (spalteMenge t m).flatten = t.filter (fun x => !m.contains x) := by
+  simp [spalteMenge, spalteMengeAux_flatten]
+
+theorem spalteMenge_nonempty (t : Text) (m : List Nat) : ∀ p ∈ spalteMenge t m, p ≠ [] := spalteMengeAux_nonempty m t []
+
+example : worte [68, 105, 101, 13, 10, 87, 32, 32, 33] = [[68, 105, 101], [87], [33]] := by decide
+example : textIstZahl [45, 49, 50] = true ∧ textIstZahl [45] = false ∧ textIstZahl [49, 97] = false := by decide
+example : verbindenZahl [1, -234, 0] 45 = [49, 45, 45, 50, 51, 52, 45, 48] := by decide
+example : anzahlNichtUeberlappend [120, 97, 98, 97, 98] [97, 98] = 2 := by decide
+
+/-! UTF-8: decoding the bytes of a text gives the text back -/
+
+theorem utf8_length (c : Nat) : 1 ≤ (utf8 c).length ∧ (utf8 c).length ≤ 4 := by
+  unfold utf8; split <;> (try split) <;> (try split) <;> simp
+
+theorem vonBytes_utf8 (c : Nat) (hc : c < 0x110000) (r : List Nat) :
+    vonBytes (utf8 c ++ r) = (vonBytes r).map (c :: ·) := by
+  unfold utf8
+  by_cases h1 : c < 0x80
+  · simp only [h1, if_true, List.cons_append, List.nil_append]
+    rw [vonBytes.eq_def]; simp only [h1, if_true]
+  · by_cases h2 : c < 0x800
+    · simp only [h1, h2, if_true, if_false, List.cons_append, List.nil_append]
+      rw [vonBytes.eq_def]
+      have a1 : ¬ (0xC0 + c / 64 < 0x80) := by omega
+      have a2 : ¬ (0xC0 + c / 64 < 0xC0) := by omega
+      have a3 : 0xC0 + c / 64 < 0xE0 := by omega
+      simp only [a1, a2, a3, if_true, if_false]
+      have : (0xC0 + c / 64 - 0xC0) * 64 + (0x80 + c % 64 - 0x80) = c := by omega
+      rw [this]
+    · by_cases h3 : c < 0x10000
+      · simp only [h1, h2, h3, if_true, if_false, List.cons_append, List.nil_append]
+        rw [vonBytes.eq_def]
+        have a1 : ¬ (0xE0 + c / 4096 < 0x80) := by omega
+        have a2 : ¬ (0xE0 + c / 4096 < 0xC0) := by omega
+        have a3 : ¬ (0xE0 + c / 4096 < 0xE0) := by omega
+        have a4 : 0xE0 + c / 4096 < 0xF0 := by omega
+        simp only [a1, a2, a3, a4, if_true, if_false]
+        have : (0xE0 + c / 4096 - 0xE0) * 4096 + (0x80 + c / 64 % 64 - 0x80) * 64 + (0x80 + c % 64 - 0x80) = c := by omega
+        rw [this]
+      · simp only [h1, h2, h3, if_false, List.cons_append, List.nil_append]
+        rw [vonBytes.eq_def]
+        have a1 : ¬ (0xF0 + c / 262144 < 0x80) := by omega
+        have a2 : ¬ (0xF0 + c / 262144 < 0xC0) := by omega
+        have a3 : ¬ (0xF0 + c / 262144 < 0xE0) := by omega
+        have a4 : ¬ (0xF0 + c / 262144 < 0xF0) := by omega
+        simp only [a1, a2, a3, a4, if_false]
+        have : (0xF0 + c / 262144 - 0xF0) * 262144 + (0x80 + c / 4096 % 64 - 0x80) * 4096 + (0x80 + c / 64 % 64 - 0x80) * 64 + (0x80 + c % 64 - 0x80) = c := by omega
+        rw [this]
+
+theorem vonBytes_bytes (t : Text) (h : ∀ c ∈ t, c < 0x110000) : vonBytes (bytes t) = some t := by
+  induction t with
+  | nil => simp [bytes, vonBytes]
+  | cons c r ih =>
+    have hr : ∀ c ∈ r, c < 0x110000 := fun x hx => h x (List.mem_cons_of_mem _ hx)
+    have hc : c < 0x110000 := h c (List.mem_cons_self ..)
+    have := vonBytes_utf8 c hc (bytes r)
+    simp only [bytes, List.flatMap_cons] at this ⊢
+    rw [this]
+    have ih' := ih hr
+    simp only [bytes] at ih'
+    rw [ih']; rfl
+
+example : bytes [97, 228, 8364, 128512] = [97, 195, 164, 226, 130, 172, 240, 159, 152, 128] := by decide
+
+/-! ### characters -/
+
+/-- the German letters are the capital and the small ones, and no letter is both -/
+theorem istDeutsch_gross_oder_klein (c : Nat) : istDeutschZ c = (istGrossZ c || istKleinZ c) := by
+  rw [Bool.eq_iff_iff]
+  simp only [istDeutschZ, istLateinischZ, istGrossZ, istKleinZ, Bool.or_eq_true, Bool.and_eq_true, decide_eq_true_eq, beq_iff_eq]
+  omega
+
+theorem gross_nicht_klein (c : Nat) (h : istGrossZ c = true) : istKleinZ c = false := by
+  simp only [istGrossZ, Bool.or_eq_true, Bool.and_eq_true, decide_eq_true_eq, beq_iff_eq] at h
+  simp only [istKleinZ, Bool.or_eq_false_iff, Bool.and_eq_false_iff, decide_eq_false_iff_not, beq_eq_false_iff_ne]
+  omega
+
+theorem grossBuchstabe_istGross (c : Nat) (h : istKleinZ c = true) (hs : c ≠ 223) : istGrossZ (grossBuchstabe c) = true := by
+  simp only [istKleinZ, Bool.or_eq_true, Bool.and_eq_true, decide_eq_true_eq, beq_iff_eq] at h
+  unfold grossBuchstabe
+  simp only [istGrossZ, Bool.or_eq_true, Bool.and_eq_true, decide_eq_true_eq, beq_iff_eq]
+  split
+  · omega
+  · split
+    · omega
+    · split
+      · omega
+      · split <;> omega
+
+/-- small → capital → small gives the letter back (ß has no capital letter) -/
+theorem klein_gross (c : Nat) (h : istKleinZ c = true) : kleinBuchstabe (grossBuchstabe c) = c := by
+  simp only [istKleinZ, Bool.or_eq_true, Bool.and_eq_true, decide_eq_true_eq, beq_iff_eq] at h
+  unfold grossBuchstabe
+  split
+  · unfold kleinBuchstabe; split <;> omega
+  · split
+    · unfold kleinBuchstabe; simp; omega
+    · split
+      · unfold kleinBuchstabe; simp; omega
+      · split
+        · unfold kleinBuchstabe; simp; omega
+        · unfold kleinBuchstabe
+          split
+          · omega
+          · split
+            · omega
+            · split
+              · omega
+              · split <;> omega
+
+theorem gross_klein (c : Nat) (h : istGrossZ c = true) : grossBuchstabe (kleinBuchstabe c) = c := by
+  simp only [istGrossZ, Bool.or_eq_true, Bool.and_eq_true, decide_eq_true_eq, beq_iff_eq] at h
+  unfold kleinBuchstabe
+  split
+  · unfold grossBuchstabe; split <;> omega
+  · split
+    · unfold grossBuchstabe; simp; omega
+    · split
+      · unfold grossBuchstabe; simp; omega
+      · split
+        · unfold grossBuchstabe; simp; omega
+        · omega
+
+/-- letters that are not German letters stay what they are -/
+theorem grossBuchstabe_fremd (c : Nat) (h : istDeutschZ c = false) : grossBuchstabe c = c ∧ kleinBuchstabe c = c := by
+  simp only [istDeutschZ, istLateinischZ, Bool.or_eq_false_iff, Bool.and_eq_false_iff, decide_eq_false_iff_not, beq_eq_false_iff_ne] at h
+  unfold grossBuchstabe kleinBuchstabe
+  constructor
+  · split
+    · omega
+    · split
+      · omega
+      · split
+        · omega
+        · split <;> omega
+  · split
+    · omega
+    · split
+      · omega
+      · split
+        · omega
+        · split <;> omega
+
+theorem asciiGroesser_kleiner (a b : Nat) : asciiGroesser a b = asciiKleiner b a := rfl
+
+theorem hexWert_hexZiffer (v : Nat) (h : v < 16) : hexWert (hexZiffer v) = some v := by
+  unfold hexZiffer hexWert
+  split
+  · have : 48 ≤ 48 + v ∧ 48 + v ≤ 57 := by omega
+    simp [this]
+  · have a : ¬ (48 ≤ 55 + v ∧ 55 + v ≤ 57) := by omega
+    have b : 65 ≤ 55 + v ∧ 55 + v ≤ 70 := by omega
+    rw [if_neg a, if_pos b]
+    congr 1
+    omega
+
+/-! ### numbers -/
+
+/-- the documented value of the smallest Zahl -/
+theorem minZahl_maxZahl : minZahl = -maxZahl := by decide
+
+theorem floorK_spec (x : Rat) : floorK x ≤ x ∧ x < floorK x + 1 := by
+  refine ⟨Rat.floor_le x, ?_⟩
+  have := Rat.lt_floor_add_one x
+  simpa [floorK, Rat.intCast_add] using this
+
+theorem floorK_ganz (n : Int) : floorK (n : Rat) = n := by simp [floorK, Rat.floor_intCast]
+
+theorem maxK_ge (a b : Rat) : a ≤ maxK a b ∧ b ≤ maxK a b ∧ (maxK a b = a ∨ maxK a b = b) := by
+  unfold maxK
+  split
+  · rename_i h; exact ⟨Rat.le_refl, h, Or.inl rfl⟩
+  · rename_i h; exact ⟨Rat.le_of_lt (Rat.not_le.mp h), Rat.le_refl, Or.inr rfl⟩
+
+theorem minK_le (a b : Rat) : minK a b ≤ a ∧ minK a b ≤ b ∧ (minK a b = a ∨ minK a b = b) := by
+  unfold minK
+  split
+  · rename_i h; exact ⟨Rat.le_refl, h, Or.inl rfl⟩
+  · rename_i h; exact ⟨Rat.le_of_lt (Rat.not_le.mp h), Rat.le_refl, Or.inr rfl⟩
+
+theorem clampK_range (w lo hi : Rat) (h : lo ≤ hi) : lo ≤ clampK w lo hi ∧ clampK w lo hi ≤ hi := by
+  unfold clampK
+  split
+  · exact ⟨h, Rat.le_refl⟩
+  · rename_i h1
+    split
+    · exact ⟨Rat.le_refl, h⟩
+    · rename_i h2
+      exact ⟨Rat.not_lt.mp h2, Rat.not_lt.mp h1⟩
+
+theorem fakultaet_pos (n : Nat) : 0 < fakultaet n := by
+  induction n with
+  | zero => decide
+  | succ n ih => unfold fakultaet; exact Nat.mul_pos (Nat.succ_pos n) ih
+
+theorem fakultaet_teilbar (n k : Nat) (h1 : 1 ≤ k) (h2 : k ≤ n) : k ∣ fakultaet n := by
+  induction n with
+  | zero => omega
+  | succ n ih =>
+    unfold fakultaet
+    by_cases hk : k = n + 1
+    · subst hk; exact Nat.dvd_mul_right _ _
+    · exact Nat.dvd_trans (ih (by omega)) (Nat.dvd_mul_left _ _)
+
+example : fakultaet 20 = 2432902008176640000 := by decide
+
+/-- `teiler z` are exactly the divisors of z -/
+theorem teiler_mem (z d : Nat) (hz : 1 ≤ z) : d ∈ teiler z ↔ d ∣ z := by
+  simp only [teiler, List.mem_filter, List.mem_range, Bool.and_eq_true, decide_eq_true_eq, beq_iff_eq]
+  constructor
+  · intro ⟨_, _, h⟩; exact Nat.dvd_of_mod_eq_zero h
+  · intro h
+    have hd : d ≤ z := Nat.le_of_dvd (by omega) h
+    have hp : 0 < d := Nat.pos_of_dvd_of_pos h (by omega)
+    exact ⟨by omega, hp, Nat.mod_eq_zero_of_dvd h⟩
+
+theorem ggTZ_teilt (a b : Int) : ((ggTZ a b : Nat) : Int) ∣ a ∧ ((ggTZ a b : Nat) : Int) ∣ b :=
+  ⟨Int.gcd_dvd_left a b, Int.gcd_dvd_right a b⟩
+
+theorem geradeZahl_iff (x : Int) : geradeZahl x = true ↔ ∃ k, x = 2 * k := by
+  simp only [geradeZahl, beq_iff_eq]
+  constructor
+  · intro h; exact ⟨x / 2, by omega⟩
+  · rintro ⟨k, rfl⟩; omega
+
+example : hexZuZahl [55, 102, 70, 70] = some 32767 ∧ zahlZuHex (-255) = [45, 70, 70] ∧ zahlZuHex 0 = [48] := by decide
+example : teiler 12 = [1, 2, 3, 4, 6, 12] := by decide
+
+/-! ### statistics -/
+
+theorem hoechsteZ_spec (l : List Int) (m : Int) (h : hoechsteZ l = some m) : m ∈ l ∧ ∀ x ∈ l, x ≤ m :=
+  List.max?_eq_some_iff.mp h
+
+theorem kleinsteZ_spec (l : List Int) (m : Int) (h : kleinsteZ l = some m) : m ∈ l ∧ ∀ x ∈ l, m ≤ x :=
+  List.min?_eq_some_iff.mp h
+
+theorem absoluteHaeufigkeit_le (l : List Rat) (x : Rat) : absoluteHaeufigkeit l x ≤ l.length := List.count_le_length
+
+theorem absoluteHaeufigkeit_pos (l : List Rat) (x : Rat) : 0 < absoluteHaeufigkeit l x ↔ x ∈ l := List.count_pos_iff
+
+/-- every modal value occurs in the list -/
+theorem modalwert_mem (l : List Rat) (x : Rat) (h : x ∈ modalwert l) : x ∈ l := by
+  simp only [modalwert] at h
+  exact (List.mem_filter.mp (List.mem_eraseDups.mp h)).1
+
+theorem median_eins (x : Rat) : median [x] = some x := by simp [median]
+
+theorem mittelwert_leer : mittelwert [] = none := rfl
+
+example : median [1, 5 / 2, 5 / 2, 4] = some (5 / 2) := by decide +kernel
+example : quantil [1, 5 / 2, 5 / 2, 4] (1 / 4) = some (7 / 4) := by decide +kernel
+example : varianz [1, 2, 3] = some 1 ∧ standardabweichung [0, 0, 4, 4, 2] = some 2 := by decide +kernel
+example : mindestens 3 [1, 5 / 2, 3, 4] = some (1 / 2) ∧ hoechstens 1 [1, 5 / 2, 3, 4] = some (1 / 4) := by decide +kernel
+example : modalwert [1, 5 / 2, 5 / 2, 4, 1] = [1, 5 / 2] := by decide +kernel
+example : kovarianz [1, 2, 3] [2, 4, 6] = some 2 := by decide +kernel
+
 end DDP.Duden
